@@ -153,9 +153,9 @@ type bitsv struct {
 	n  int
 }
 type bitsr struct {
-	a, c   bitsv
-	cb     []byte
-	cbOK   bool
+	a, c bitsv
+	cb   []byte
+	cbOK bool
 }
 
 func runBits(c []byte) bitsr {
@@ -467,7 +467,7 @@ func obs(kind int, h uint64, c []byte) uint64 {
 	panic("obs kind")
 }
 
-var alphabets = [][]byte{nil, {0, 1, 127, 128, 129, 130, 131, 132, 255}, {0, 1, 2, 39, 40, 79, 80, 127, 128, 129, 130, 255}}
+var alphabets = [][]byte{nil, {0, 1, 127, 128, 129, 130, 131, 132, 255}, {0, 1, 2, 39, 40, 79, 80, 127, 128, 129, 130, 255}, edge}
 
 func init() {
 	a := make([]byte, 256)
@@ -785,10 +785,7 @@ func gen(c *vh.Ctx) {
 	// ---- exhaustive (rolling checksum): one xcase per (kind, first byte); the kinds are interleaved so that
 	// the shards the driver cuts the stream into cost about the same on the model side
 	depthOf := func(kind int) int {
-		if c.Thorough && kind != kBool {
-			return 2 // first byte + 2 more: every content of length <= 3
-		}
-		return 1 // every content of length <= 2
+		return 1 // first byte + 1 more: every content of length <= 2
 	}
 	oidDepth := 3
 	if c.Thorough {
@@ -812,6 +809,12 @@ func gen(c *vh.Ctx) {
 		} else {
 			xcase(c, kHdrA, 1, []byte{byte(b)}, 2)
 		}
+		if c.Thorough {
+			// three-byte contents whose second and third byte come from the 16-value boundary alphabet
+			for _, kind := range []int{kInt, kBits, kOID} {
+				xcase(c, kind, 3, []byte{byte(b)}, 2)
+			}
+		}
 		if b%22 == 0 && b/22 < len(alphabets[2]) {
 			// OID bodies one or two bytes longer over the boundary alphabet {00 01 02 27 28 4f 50 7f 80 81 82 ff}
 			xcase(c, kOID, 2, []byte{alphabets[2][b/22]}, oidDepth)
@@ -823,11 +826,30 @@ func gen(c *vh.Ctx) {
 			xcase(c, kHdrC, 1, []byte{cbTags[b/26]}, 5)
 		}
 	}
+	c.Exhaustive("every INTEGER, BOOLEAN, BIT STRING and OID content of length <= 2 (all 256 byte values), each through every reader of both codecs")
 	if c.Thorough {
-		c.Exhaustive("every INTEGER, BIT STRING and OID content of length <= 3 and every BOOLEAN content of length <= 2 (all 256 byte values), each through every reader of both codecs")
+		c.Exhaustive("every INTEGER, BIT STRING and OID content of length 3 with an arbitrary first byte and the other two from the 16-value boundary alphabet")
 		c.Exhaustive("encoding/asn1 parseTagAndLength: every header of <= 6 bytes with an arbitrary identifier octet and the other octets from {00,01,7f,80,81,82,83,84,ff}")
+		// implementation only (direct oracle, no model): the full three-byte domains of the property text
+		for _, kind := range []int{kInt, kBits, kOID} {
+			n := 0
+			buf := make([]byte, 3)
+			for a := 0; a < 256; a++ {
+				for b := 0; b < 256; b++ {
+					for d := 0; d < 256; d++ {
+						buf[0], buf[1], buf[2] = byte(a), byte(b), byte(d)
+						for _, v := range oracle(kind, buf) {
+							c.Violation(v.key, v.desc, "dcase", input{Kind: kind, Hex: vh.Hex(buf)})
+						}
+						n++
+					}
+				}
+			}
+			c.Stat("oracle_only_"+kindName[kind], n)
+			c.Eval(fmt.Sprintf("full3/%d", kind))
+		}
+		c.Exhaustive("direct oracle only (no model): every INTEGER, BIT STRING and OID content of length 3 over all 256 byte values")
 	} else {
-		c.Exhaustive("every INTEGER, BOOLEAN, BIT STRING and OID content of length <= 2 (all 256 byte values), each through every reader of both codecs")
 		// the identifier octet interacts with what follows only in the high-tag form (low five bits set)
 		c.Exhaustive("encoding/asn1 parseTagAndLength: every header of <= 3 bytes with an arbitrary identifier octet, and of <= 6 bytes for the identifier octets 1f bf 30 02; other octets from {00,01,7f,80,81,82,83,84,ff}")
 	}
